@@ -176,6 +176,31 @@ class Ctx:
                 flat[i] = float(ov[n])
         return flat.reshape(t.shape)
 
+    def binary(self, name, wit, dtype=None):
+        """0/1-valued symbolic tensor: every element is ite(b, 1, 0) for a fresh boolean variable b."""
+        dtype = dtype or self.dtype
+        wit = self._witness(wit)
+        t = torch.tensor(wit, dtype=torch.float64)
+        names = [f"{name}{i}" for i in range(t.numel())]
+        self.vars[name] = dict(kind="bool", shape=list(t.shape))
+        if self.mode == "replay":
+            flat = t.reshape(-1).clone()
+            for i, n in enumerate(names):
+                if n in self.model and self.model[n] is not None:
+                    flat[i] = 1.0 if self.model[n] else 0.0
+            return flat.reshape(t.shape).to(torch.float64 if (dtype == torch.float32 and self.replay_double) else dtype)
+        ov = getattr(self, "override", None) or {}
+        flat = t.reshape(-1).clone()
+        arr = np.empty(t.numel(), dtype=object)
+        for i, n in enumerate(names):
+            if n in ov and ov[n] is not None:
+                flat[i] = 1.0 if ov[n] else 0.0
+            b = self.eng.new_var(n, bool(flat[i] > 0.5), "bool")
+            arr[i] = tm.ite(b, tm.ONE, tm.ZERO)
+        r = flat.reshape(t.shape).to(dtype)
+        self.eng.set_terms(r, arr.reshape(tuple(t.shape)))
+        return r
+
     def assume(self, cond, nice_only=False):
         """Add a precondition given as bool tensor (symbolic) / python bool."""
         if self.mode == "replay":
